@@ -42,7 +42,12 @@ pub fn ropt() -> BoxedStrategy<ROpt> {
 }
 
 pub fn options() -> BoxedStrategy<Vec<(ROpt, u64)>> {
-    proptest::collection::vec((ropt(), opt_value()), 0..=6).boxed()
+    // mostly short lists; now and then far more pairs than there are option kinds (repeats are legal on the wire)
+    prop_oneof![
+        8 => proptest::collection::vec((ropt(), opt_value()), 0..=6),
+        2 => proptest::collection::vec((ropt(), opt_value()), 7..=40),
+    ]
+    .boxed()
 }
 
 pub fn block_number() -> BoxedStrategy<u16> {
